@@ -285,6 +285,10 @@ func (level Level) MarshalText() ([]byte, error) {
 
 // ParseLevel takes a string level and returns the Logrus log level constant.
 func ParseLevel(lvl string) (Level, error) {
+	if l, ok := stringToLevel[lvl]; ok {
+		// registered titles are stored as given (NOTICE, Hint, ...)
+		return l, nil
+	}
 	if l, ok := stringToLevel[strings.ToLower(lvl)]; ok {
 		return l, nil
 	}
